@@ -66,6 +66,11 @@ class NodeBoom(Exception):
         super().__init__("boom " + name)
         self.node = name
 
+    # an exception object may be falsy (a container-like error with no items): "did it raise?" is never decided by
+    # the truthiness of the exception.  About half of the node names raise a falsy exception, the others a truthy one.
+    def __bool__(self):
+        return sum(map(ord, self.node)) % 2 == 0
+
 
 class Ctl:
     """controller + recorder of one execution."""
@@ -527,7 +532,7 @@ def failing_node_of(exc):
             return m.group(1)
         if isinstance(e, NodeBoom):
             return e.node
-        e = e.__cause__ or e.__context__
+        e = e.__cause__ if e.__cause__ is not None else e.__context__
     return None
 
 
